@@ -174,12 +174,9 @@ def _scenario(res, seq, use_vpc, segspec, pooling, failing, label, own_hasher, o
     def v(key, msg):
         viol.append((key, msg))
 
-    _T = w.clock.module_shim()
-    saved = hashmod.time
-    hashmod.time = _T
     import pymemcache.client.ext.aws_ec_client as awsmod
-    saved_aws = awsmod.time
-    awsmod.time = _T          # the AWS client's constructor stamps _last_dead_check_time through its own module global
+    # (the AWS client's constructor stamps _last_dead_check_time through its own module's clock)
+    restore_clocks = [w.clock.patch_module(hashmod), w.clock.patch_module(awsmod)]
     try:
         w.advertise(seq[0])
         w.net.begin_call("ctor")
@@ -299,8 +296,8 @@ def _scenario(res, seq, use_vpc, segspec, pooling, failing, label, own_hasher, o
                 if kind == "RAW_IO_AFTER_WRAP":
                     v("tls-bypassed:raw-io-after-wrap", detail)
     finally:
-        hashmod.time = saved
-        awsmod.time = saved_aws
+        for r_ in restore_clocks:
+            r_()
     return viol, case
 
 
